@@ -931,6 +931,36 @@ theorem generated_onehot_is_the_model (vt : List VT4) (c : Cons) :
     ∧ Generated.OnehotTable.flipPython = OnehotTab.flipPythonModelled :=
   ⟨OnehotTab.onehotBy_generated vt c, OnehotTab.flipPython_generated⟩
 
+/-- **The mark the copying `fix_variables` leaves, at label level.**  `fix_variables(fixed, inplace=False)` keeps the discrete
+    mark of a constraint iff it was marked and the NEW constraint `is_onehot()` (`mark_discrete(old.marked_discrete() &&
+    new.is_onehot())`): with `LCons.isOnehotWith` that test is a function of the returned model's label-keyed polynomial, its
+    variable table and its `is_linear()` observation — no index-level notion is left in the statement. -/
+theorem fix_copy_mark_label_level (m m' : Cqm) (hwf : CqmWF m) (hl : CqmLabelsOK m) (fixed : List (Label × Rat))
+    (h : m.fixVariablesCopy fixed = some m') :
+    ∀ k, k < m.cons.length →
+      (m'.cons.getD k {}).discrete
+        = ((m.cons.getD k {}).discrete
+            && (absCons m'.labels (m'.cons.getD k {})).isOnehotWith (absCqm m').info ((linFlags m').getD k false)) := by
+  intro k hk
+  obtain ⟨_, a2, a3, a4, _⟩ := fix_copy_attrs_and_vars m m' hwf hl.labels_nodup fixed h
+  have hwf' : CqmWF m' := fixCopy_wf hwf h
+  have hlen : m'.cons.length = m.cons.length := by
+    have := congrArg List.length a2
+    simpa using this
+  have hk' : k < m'.cons.length := by rw [hlen]; exact hk
+  have hnd' : m'.labels.Nodup := by
+    have : m'.labels = m.labels.filter (fun l => !(fixed.any (·.1 = l))) := a4
+    rw [this]; exact hl.labels_nodup.filter _
+  have hc : m'.cons.getD k {} = m'.cons[k] := by
+    rw [List.getD_eq_getElem?_getD, List.getElem?_eq_getElem hk']; rfl
+  have hmem : m'.cons.getD k {} ∈ m'.cons := by rw [hc]; exact List.getElem_mem hk'
+  have hoh := flipfn_isOnehot_abs (hwf'.cons _ hmem) m'.vt m'.lb m'.ub m'.labels hnd' hwf'.labels_len (hwf'.cons_lt _ hmem)
+  have hfl : (linFlags m').getD k false = (m'.cons.getD k {}).e.qb.isLinear := by
+    unfold linFlags
+    rw [List.getD_eq_getElem?_getD, List.getElem?_map, List.getElem?_eq_getElem hk', hc]; rfl
+  rw [a3 k hk, hoh, hfl]
+  rfl
+
 /-- not vacuous, both outcomes of the BINARY branch on `demo` + a discrete constraint `d` over x, y: the first flip of `x`
     makes `d` no longer one-hot, so `is_discrete()` is False when the marks are examined and the mark STAYS; the second flip
     restores the one-hot form and the mark is cleared — the function gives the marks the model has, and `is_linear()` is what
